@@ -510,7 +510,10 @@ func (c *Ctx) c09Bombs() {
 	}
 }
 
-type faultRT struct{ mode string }
+type faultRT struct {
+	mode string
+	clen int64
+}
 
 type errReader struct{ n int }
 
@@ -525,7 +528,9 @@ func (e *errReader) Read(p []byte) (int, error) {
 
 func (f faultRT) RoundTrip(req *http.Request) (*http.Response, error) {
 	mk := func(code int, body io.Reader) *http.Response {
-		return &http.Response{StatusCode: code, Status: fmt.Sprint(code), Body: io.NopCloser(body), Header: http.Header{}, Request: req}
+		// how the transport framed the body: Content-Length unknown (chunked / close-delimited: -1), absent from a hand-made
+		// response (0), smaller than the body, or absurdly large
+		return &http.Response{StatusCode: code, Status: fmt.Sprint(code), Body: io.NopCloser(body), Header: http.Header{}, Request: req, ContentLength: f.clen}
 	}
 	switch f.mode {
 	case "conn-error":
@@ -556,10 +561,13 @@ func (f faultRT) RoundTrip(req *http.Request) (*http.Response, error) {
 func (c *Ctx) c09Resolver() {
 	cfg := baseCfg()
 	setGlobals(cfg, ms(baseTime))
-	for _, mode := range []string{"conn-error", "500", "404-html", "truncated", "empty", "garbage", "soap-fault", "wrong-envelope", "no-body", "comment-only", "two-bodies"} {
+	modes := []string{"conn-error", "500", "404-html", "truncated", "empty", "garbage", "soap-fault", "wrong-envelope", "no-body", "comment-only", "two-bodies"}
+	clens := []int64{0, -1, 3, 1 << 31}
+	for i := 0; i < len(modes)*len(clens); i++ {
+		mode, clen := modes[i%len(modes)], clens[i/len(modes)]
 		s := c.realSP(cfg)
 		s.IDPMetadata.IDPSSODescriptors[0].ArtifactResolutionServices = []saml.Endpoint{{Binding: saml.SOAPBinding, Location: "https://idp.example.com/saml/artifact"}}
-		s.HTTPClient = &http.Client{Transport: faultRT{mode}}
+		s.HTTPClient = &http.Client{Transport: faultRT{mode: mode, clen: clen}}
 		saml.RandReader = &detReader{c: c}
 		res := withTimeout(func() string {
 			req, _ := http.NewRequest("POST", cfg.Acs, nil)
@@ -572,7 +580,8 @@ func (c *Ctx) c09Resolver() {
 			orc = "key=artifact-fault:" + mode + " a failing artifact resolution did not yield an InvalidResponseError: " + res
 		}
 		c.count("c09-resolver", mode+"/"+res)
-		c.emitOneWay("resolver", []string{encStr(mode)}, res, orc)
+		c.count("c09-resolver-content-length", fmt.Sprint(clen))
+		c.emitOneWay("resolver", []string{encStr(mode), fmt.Sprint(clen)}, res, orc)
 	}
 }
 
